@@ -127,6 +127,49 @@ class Card:
 class Plain:
     pass
 
+class Grumpy:
+    """conversions and protocols that fail: they must fail on the result of a call just as on the object itself"""
+    def __repr__(self):
+        raise RuntimeError('no repr')
+    def __str__(self):
+        raise RuntimeError('no str')
+    def __format__(self, spec):
+        raise RuntimeError('no format')
+    def __bool__(self):
+        raise RuntimeError('no truth value')
+    def __len__(self):
+        raise RuntimeError('no len')
+    def __hash__(self):
+        raise RuntimeError('no hash')
+    def __iter__(self):
+        raise RuntimeError('no iteration')
+    def __int__(self):
+        raise RuntimeError('no int')
+    def __float__(self):
+        raise RuntimeError('no float')
+    def __eq__(self, other):
+        raise RuntimeError('no comparison')
+    def __neg__(self):
+        raise RuntimeError('no negation')
+    def __getitem__(self, key):
+        raise RuntimeError('no indexing')
+    def __contains__(self, item):
+        raise RuntimeError('no membership')
+    def __add__(self, other):
+        raise RuntimeError('no addition')
+    __radd__ = __add__
+
+grumpy_instance = Grumpy()
+
+class Odd:
+    """looking up an attribute it does not have fails with something other than AttributeError"""
+    def __getattr__(self, name):
+        raise KeyError(name)
+    def __repr__(self):
+        return 'Odd()'
+
+odd_instance = Odd()
+
 plain_instance = Plain()
 
 def boom():
@@ -147,6 +190,8 @@ VALUES = [
     ('Vec', 'Vec(1, 2)'), ('Vec', 'Vec(0, 0)'), ('Vec', 'Vec(1.5, -2)'),
     ('Money', 'Money(150)'), ('Card', 'Card(0, "hearts")'), ('Card', 'Card(12, "spades")'), ('Plain', 'plain_instance'),
     ('range', 'range(3)'), ('bytes', "b'ab'"), ('frozenset', 'frozenset({1})'),
+    ('type', 'Vec'), ('type', 'int'), ('type', 'Plain'),
+    ('Odd', 'odd_instance'), ('Grumpy', 'grumpy_instance'), ('list', '[grumpy_instance]'), ('tuple', '(1, grumpy_instance)'), ('dict', "{'g': grumpy_instance}"),
 ]
 
 
@@ -168,6 +213,7 @@ BINARY = [
     ('getitem', operator.getitem),      # container[key]: proxy placement L = proxied container
     ('in', _contains),                  # item in container: placement R = proxied container
     ('isinstance-of-type', None),
+    ('isinstance-of-class', None),      # isinstance(x, C) where the class C itself is what student code produced (R: C proxied; B: both)
     ('round-n', lambda a, b: round(a, b)),
 ]
 
@@ -266,9 +312,15 @@ class Harness:
         try:
             want = eval(expr, self.ref_ns)
             got = unwrap(p)
-            if not is_proxy(p) or type(got).__name__ != type(want).__name__ or _noaddr(repr(got)) != _noaddr(repr(want)):
+            if 'grumpy' in expr:
+                same = is_proxy(p) and type(got).__name__ == type(want).__name__     # (these values have no repr to compare)
+                want_text = got_text = '<a value whose repr raises>'
+            else:
+                want_text, got_text = repr(want), repr(got)
+                same = is_proxy(p) and type(got).__name__ == type(want).__name__ and _noaddr(got_text) == _noaddr(want_text)
+            if not same:
                 self.mismatch = (expr, how, ['after-failed-call', 'after-ok-call', 'first'][self.made % 3 - 1],
-                                 repr(want)[:100], repr(got)[:100])
+                                 want_text[:100], got_text[:100])
         except Exception as e:
             self.mismatch = (expr, how, 'reference', repr(e), '')
         self.cache[(expr, how)] = p
@@ -398,6 +450,11 @@ def cells(ctx, values, shard, nshards, only=None):
                 if oname == 'isinstance-of-type':
                     fn = lambda a, b: isinstance(a, type(b))
                     placements = [('L', pl, rv)]
+                elif oname == 'isinstance-of-class':
+                    if not isinstance(rv, type):
+                        continue
+                    fn = lambda a, b: isinstance(a, b)
+                    placements = [('R', lv, pr), ('B', pl, pr)]
                 elif oname == 'round-n':
                     if rt not in ('int', 'NoneType', 'bool'):
                         continue
